@@ -69,7 +69,7 @@ CLAIMED["C16"] = {
 
 CLAIMED["C01"] = {
     "technique": "translator T2 regenerates the loader's byte-counter code into Lean on every run; Lean 4 alignment theorems about that generated code for all parameter values; three-way correspondence real loader / Lean loader model / Lean Spec leaf rows on synthetic RAMSES outputs (+ writer vs Lean encode, read-request traces)",
-    "text": "Proved for all ncpu, levelmax, nboundary, noutput, key sizes, coarse grids, ncache, variable tables (ndim in {1,2,3}): every read of AmrReader.read_header, of an owned block (cacheline header + child-cell reads + footer), of the hydro/grav/rt headers and of Reader.read_variables lands on the payload start of the intended record and the counters advance by exactly the bytes passed; step_over advances like reading (Readers.lean, about Generated/Readers.lean). C01_units_lib_is_reference / C01_units_lib_consistent re-prove the units library extracted from defaults.py. The composition over the whole file walk and the end-to-end equality loadMesh(encode O) = leafRows O is carried by the correspondence: each generated output is written by an independent Python writer (diffed against Lean encode), loaded by the real loader, and compared row-by-row with the loader model, as a multiset with the Spec leaf rows, and request-by-request with the model's read trace.",
+    "text": "Layout.skelOf_amrHeader / skelOf_amrBlock / skelOf_amrFile / totalBytes_amrFile / skelOf_varBlock / skelOf_partFile prove that the files written by the format Spec (Ramses.encode, diffed against the Python writer on every run) have exactly the record skeletons the alignment theorems are about and that the header walk plus one block advance per (level, domain) ends at the end of the file; Readers.readAt_aligned says an aligned request returns that record. Proved for all ncpu, levelmax, nboundary, noutput, key sizes, coarse grids, ncache, variable tables (ndim in {1,2,3}): every read of AmrReader.read_header, of an owned block (cacheline header + child-cell reads + footer), of the hydro/grav/rt headers and of Reader.read_variables lands on the payload start of the intended record and the counters advance by exactly the bytes passed; step_over advances like reading (Readers.lean, about Generated/Readers.lean). C01_units_lib_is_reference / C01_units_lib_consistent re-prove the units library extracted from defaults.py. The composition over the whole file walk and the end-to-end equality loadMesh(encode O) = leafRows O is carried by the correspondence: each generated output is written by an independent Python writer (diffed against Lean encode), loaded by the real loader, and compared row-by-row with the loader model, as a multiset with the Spec leaf rows, and request-by-request with the model's read trace.",
     "note": "trusted: Lean kernel + standard axioms; translator T2 and the extractors; the RAMSES format as formalised by the writer/encode pair (no real RAMSES output offline); struct.unpack, numpy; derived variables (mass, B_field) are checked on the implementation's own columns",
     "design_ref": "5 C01",
 }
